@@ -24,6 +24,10 @@ pub struct Input {
     pub kinds: Vec<u8>,
     /// listing order used when the table is re-opened after the fault
     pub list_order: u8,
+    /// number of detached commits made after the prefix history (they must stay invisible: never the latest version,
+    /// never in versions(), whatever happens to the victim write afterwards)
+    #[serde(default)]
+    pub detached: u8,
 }
 
 fn victim() -> BoxedStrategy<Op> {
@@ -84,6 +88,26 @@ pub fn run(input: &Input, obs: &mut Obs, env: &Env) -> CheckResult {
         };
         for (i, step) in h.steps.iter().enumerate() {
             w.apply(step, obs).await.map_err(|f| Failure::new(f.kind, format!("prefix step {i} ({}): {}", step.op.kind(), f.msg)))?;
+        }
+        for i in 0..input.detached {
+            use lance::dataset::transaction::{Operation, Transaction, UpdateMap, UpdateMapEntry};
+            let op = Operation::UpdateConfig {
+                config_updates: Some(UpdateMap { update_entries: vec![UpdateMapEntry { key: "verif.detached".into(), value: Some(format!("{i}")) }], replace: false }),
+                table_metadata_updates: None,
+                schema_metadata_updates: None,
+                field_metadata_updates: std::collections::HashMap::new(),
+            };
+            let tx = Transaction::new(w.latest, op, None);
+            match lance::dataset::CommitBuilder::new(std::sync::Arc::new(w.ds.clone())).with_detached(true).execute(tx).await {
+                Ok(d) => {
+                    obs.label("detached-commit-made");
+                    ensure!(!w.versions.contains_key(&d.version().version), "detached-commit-version", "a detached commit produced the attached version {}", d.version().version);
+                }
+                Err(e) => obs.label(format!("detached-commit-rejected:{}", truncate_str(&format!("{e}"), 40))),
+            }
+            // the handle and a fresh process still see the attached history only
+            let fresh = w.open_fresh(None).await.map_err(|m| Failure::new("open-after-detached", format!("after a detached commit the table cannot be opened: {m}")))?;
+            ensure!(fresh.version().version == w.latest, "detached-became-latest", "after a detached commit the latest version is {} (model {})", fresh.version().version, w.latest);
         }
         Ok(w)
     });
@@ -252,7 +276,7 @@ impl Property for C01 {
         "fault_enumeration"
     }
     fn rule(&self) -> String {
-        "A generated prefix history (0-4 ops) builds a table on the controlled in-memory store with the conditional-put or the rename-if-not-exists commit handler and V1/V2 manifest names; a generated victim write (append, overwrite, delete, update, merge_insert, compaction incl. its reservation commits, index create/optimize, add/alter/drop column, config update, restore) is run fault-free on a snapshot to learn its N mutating storage calls, its commit point and the model post-state; then the store is restored and the victim re-run with a fault (crash before / crash after / fail without effect) at generated mutating calls k in [0,N] (thorough: many k per victim). After each fault every handle is dropped and a fresh process opens the table under a generated listing order: versions() must be dense, every old version must read exactly its model state, every new version must be complete (equal to the fault-free state of that version and validate()), nothing new may exist when the fault precedes the commit point, and a write that returned Ok must be the latest version. Non-trivial = fault at or before the op's last call; distinct by (handler, victim kind, fault kind, position class).".into()
+        "A generated prefix history (0-4 ops) builds a table on the controlled in-memory store with the conditional-put or the rename-if-not-exists commit handler and V1/V2 manifest names, followed by 0-2 detached commits (CommitBuilder::with_detached; they must not become the latest version, appear in versions() or change what a fresh process opens); a generated victim write (append, overwrite, delete, update, merge_insert, compaction incl. its reservation commits, index create/optimize, add/alter/drop column, config update, restore) is run fault-free on a snapshot to learn its N mutating storage calls, its commit point and the model post-state; then the store is restored and the victim re-run with a fault (crash before / crash after / fail without effect) at generated mutating calls k in [0,N] (thorough: many k per victim). After each fault every handle is dropped and a fresh process opens the table under a generated listing order: versions() must be dense, every old version must read exactly its model state, every new version must be complete (equal to the fault-free state of that version and validate()), nothing new may exist when the fault precedes the commit point, and a write that returned Ok must be the latest version. Non-trivial = fault at or before the op's last call; distinct by (handler, victim kind, fault kind, position class).".into()
     }
     fn assumptions(&self) -> Vec<String> {
         vec![
@@ -274,8 +298,9 @@ impl Property for C01 {
             prop::collection::vec(any::<u16>(), nk..nk + 1),
             prop::collection::vec(0u8..3, nk..nk + 1),
             0u8..3,
+            prop_oneof![6 => Just(0u8), 3 => Just(1u8), 1 => Just(2u8)],
         )
-            .prop_map(|(hist, victim, ks, kinds, list_order)| Input { hist, victim, ks, kinds, list_order })
+            .prop_map(|(hist, victim, ks, kinds, list_order, detached)| Input { hist, victim, ks, kinds, list_order, detached })
             .boxed()
     }
     fn check(&self, input: &Input, obs: &mut Obs, env: &Env) -> CheckResult {
